@@ -164,6 +164,9 @@ func runC04(c *Ctx) {
 			l := make([]byte, n)
 			for i := range l {
 				l[i] = byte('a' + r.Intn(26))
+				if r.Chance(8) {
+					l[i] = []byte{'.', '\\', 0, 200, '"', ' '}[r.Intn(6)] // octets that are escaped in text
+				}
 			}
 			ls = append(ls, l)
 			left -= 1 + n
